@@ -14,6 +14,7 @@ pub mod c13;
 pub mod c14;
 pub mod c15;
 pub mod c16;
+pub mod c17;
 pub mod c20;
 
 pub fn property(id: &str) -> Option<Property> {
@@ -32,6 +33,7 @@ pub fn property(id: &str) -> Option<Property> {
         "C14" => Some(c14::property()),
         "C15" => Some(c15::property()),
         "C16" => Some(c16::property()),
+        "C17" => Some(c17::property()),
         "C20" => Some(c20::property()),
         _ => None,
     }
